@@ -23,7 +23,21 @@ Definition top_eq (x y : node) := match x, y with Node k a _ _ _ tl, Node k' a' 
    3 error behaviour (raises or not; partial modification) | 4 strip changed the text exactly as the modelled " +" rewrite does (F16 class)
    5 insertion changed the text exactly as the model predicts (negative offset class) | 6 composite call differs from its two documented steps
    8 pre-state outside the model's domain (not compared) | 9 exact shape (empty text nodes, white-space encoding) differs: fidelity only *)
+(* a composite content=regex call must enclose exactly the designated match between its start and end marks:
+   encoded as (post, OInsert [Txt expected] (WRe true a1 [[(a2, 0)]]), false, post) — see [range_case] *)
+Definition range_case (c : node * op * bool * node) : option (nat * nat * str * node) :=
+  match c with
+  | (_, OInsert [Txt m] (WRe true a1 [[(a2, 0)]]), false, post) => Some (Z.to_nat a1, a2, m, post)
+  | _ => None
+  end.
 Definition chk (c : node * op * bool * node) : nat :=
+  match range_case c with
+  | Some (a1, a2, m, post) =>
+      match text_between a1 a2 (content post) with
+      | Some t => if str_eqb t m then 0 else 7
+      | None => 7
+      end
+  | None =>
   let '(pre, o, raised, post) := c in
   let pc := content pre in let qc := content post in
   if negb (in_domain pc) then 8 else
@@ -37,14 +51,15 @@ Definition chk (c : node * op * bool * node) : nat :=
      else if negb (str_eqb (readable_ev qc) (readable_ev m)) then 1
      else if negb agree then (match o with OSame => 6 | _ => 2 end)
      else if evs_eqb m qc then 0 else 9
-  end.'''
+  end end.'''
 
 LAYER = {1: "text: the readable text of the paragraph is not what the property requires after this step",
          2: "markup: the element was not inserted/removed where the model (offset/regex arithmetic) says",
          3: "error behaviour: raises where the model does not (or the reverse), or raised after modifying the paragraph",
          4: "strip: removing tags changed the characters (double space collapsed)",
          5: "text: the insertion changed the readable text (and the model of the pinned arithmetic predicts exactly this change)",
-         6: "composite: content=/position=(a,b) call differs from its two documented single insertions"}
+         6: "composite: content=/position=(a,b) call differs from its two documented single insertions",
+         7: "range: the start and end marks inserted for content=regex do not enclose the designated match"}
 DATE = datetime(2020, 1, 2, 3, 4, 5)
 
 
@@ -203,6 +218,12 @@ class Run:
             self.emit(pre0, 'OSame', False, postq, dict(hid=hid, step=si, st=dict(st, part='composite-raised'), err=err))
         else:
             self.emit(self.abs(p), 'OSame', r1 or r2, postq, dict(hid=hid, step=si, st=dict(st, part='composite'), err=err))
+            if 'rx' in st and not (r1 or r2) and st.get('pos', 0) >= 0:
+                # the designated match: the pos-th match over the text nodes of the state before the call
+                ms = [t[x:y] for t, sp in zip(tl.texts(pre0), tl.spans_oracle(st['rx'], pre0)) for (x, y) in sp]
+                if st.get('pos', 0) < len(ms):
+                    op = 'OInsert [Txt %s] (WRe true (%d) [[(%d, 0)]])' % (c.cs(ms[st['pos']]), m1[1], m2[1])
+                    self.emit(postq, op, False, postq, dict(hid=hid, step=si, st=dict(st, part='range'), err=None))
         return r1 or r2
 
     # ------------------------------------------------------------ removals (each on a clone of the state reached)
@@ -350,6 +371,8 @@ def squeeze(s):
 def classify(code, meta):
     """returns a known-finding key or None"""
     st = meta['st']
+    if code == 7 and st['k'] == 'annot2' and any(re.search(st['rx'], t) for t in (st['body'], 'cr', '2020-01-02T03:04:05')):
+        return "insert_annotation/content-regex-matches-own-annotation"
     if code == 4 and squeeze(tl.raw(meta['pre'])) == squeeze(tl.raw(meta['post'])):
         return "strip_tags/double-space-created-by-concatenation"
     return None
@@ -375,7 +398,7 @@ def run(tier, seed, replay=None):
     if replay:
         hs = [json.load(open(replay))["history"]]; ncorpus = 0
     else:
-        n = 800 if tier == "quick" else 11000
+        n = 650 if tier == "quick" else 11000
         for i in range(n):
             hs.append(gen_history(rng, edge=(i % 4 == 3)))
     all_steps, abstraction_errors = [], []
